@@ -31,6 +31,9 @@ def run(ctx):
     r = ctx.rule("R2f", "call area / rbp slots stay inside the reserved frame; spill offsets based at STACK_SIZE_LOWER", 4)
     for kind in AC.ALL:
         ctx.guarded(r, AK.check_frame, kind)
+    r = ctx.rule("R2fd", "run-time displacements (spill slots, input / output elements) are added to their base register, never subtracted", 16)
+    for kind in AC.ALL:
+        ctx.guarded(r, AC.check_disp_sign, kind)
     r = ctx.rule("R2h", "integer compares appear only as the all-ones idiom (float data is compared as float)", 23)
     for kind in AC.ALL:
         ctx.guarded(r, AC.check_int_compare, kind)
